@@ -44,6 +44,8 @@ CHECKS = {
                 note="Trusted: CPython datetime. Date.decode returning a datetime for a date is documented and accepted. 'Randomly inside' is not done."),
     "C06": dict(tech=ENUM, ref="5/C06", text="Value lattice (bool, int incl. huge/negative, float incl. exponents, Decimal incl. trailing zeros, every string of length <= 3 over an alphabet with white space / XML-special / non-ASCII plus type look-alikes such as 'true', dates and datetimes over years 1..9999 x microseconds x zones, whole-second durations incl. negative and multi-day, None) x every carrier (Cell, Cell.value, Row/Table set_value, VarSet, UserFieldDecl, UserDefined, user-defined metadata) x {direct, re-parsed, saved and reopened}; every ordered pair of type representatives written on the same carrier; attributes checked against the ODF lexical forms.",
                 note="Trusted: lxml. Documented type map accepted (numbers come back as int/Decimal, a date as datetime at midnight). inf/nan and fractional durations are outside the domain."),
+    "C14": dict(tech=ENUM, ref="5/C14", text="Every identifier up to the length bound over an alphabet rich in XPath- and XML-significant characters, accepted by the respective setter, stored together with decoys (suffix/prefix/doubled/one character changed/quote swapped) and looked up through every name-taking entry point of its kind (table, style, bookmark and its start/end, reference marks single and range, frame, draw page, variable decl/set, user field, note id, manifest path, link, user-defined, named range): no exception, the object found carries exactly that identifier.",
+                note="Trusted: lxml. Sections have no lookup by name in the API. Setters that strip the name (table, named range) are queried with the stripped identifier."),
 }
 
 NOT_YET = {}
